@@ -57,7 +57,7 @@ def setup_nodes(ctx, shape, nodes):
     for d in nodes:
         if d[0] == "open":
             per_span.setdefault(d[1], set()).add(d[2])
-    sep = z3.RealVal(str(H.NODE_SEP))
+    sep = z3.RealVal(str(H.SEP))      # new nodes become knots: A3 applies to the resulting vector as well
     for z, ids in per_span.items():
         ids = sorted(ids)
         prev = ctx.zv[kn[z]]
